@@ -137,7 +137,7 @@ fn nth_string(mut idx: u64, len: usize) -> String {
 }
 
 pub fn run(ctx: &mut Ctx) -> (&'static str, String, bool) {
-    let maxlen = ctx.tier.pick(4usize, 5usize);
+    let maxlen = ctx.tier.pick(4usize, 6usize);
     let mut total = 0u64;
     for len in 0..=maxlen {
         let n = 18u64.pow(len as u32);
